@@ -124,7 +124,13 @@ func secretHistory(c c08Case, x *xplore.X) (obs, bad string) {
 
 var _ io.Reader = (*recReader)(nil)
 
+// c08Scheduled is set by the instrumented build: interleaved call histories under the cooperative scheduler.
+var c08Scheduled func(r *ev.Run, registerOnly bool)
+
 func c08(r *ev.Run) {
+	if c08Scheduled != nil {
+		c08Scheduled(r, true)
+	}
 	r.Scenario("random-secret", func(raw []byte) (string, string) {
 		c := unjson[c08Case](raw)
 		var obs, bad string
@@ -229,6 +235,11 @@ func c08(r *ev.Run) {
 	}
 	r.Sample(map[string]any{"history": []int{0, 3, 2}, "stream": "byte i = i", "expect": "call 1 = base32(stream[0:20]), call 2 = error and 0 bytes consumed, call 3 = base32(stream[20:84])"})
 	r.Sample(map[string]any{"short_read_schedule": []int{19, 0, 5}, "meaning": "first Read returns 1 byte, second returns all it was asked, third is 5 short"})
+	if c08Scheduled != nil {
+		c08Scheduled(r, false)
+	} else {
+		r.NotExhaustive("interleaved call histories need the instrumented build")
+	}
 	r.Rule("the random source is substituted by a recording stream: every constant stream, the position-tag stream with every (position, value) substitution, every enum value, every call history of <= 3 calls over {SHA1,SHA256,SHA512,3,255}; every schedule of short reads of the source within the deviation bound (thorough: all 2^19 compositions of 20 bytes); state = stream offset, transition = one call / one Read; distinct = distinct observed outcomes")
 	r.Assume("that the default crypto/rand.Reader is the OS CSPRNG is Go's guarantee; a reader *error* is a fatal crash in go1.24's rand.Read by design and is not explored")
 }
